@@ -238,6 +238,18 @@ def main(tier, only_replay=None):
         if bad:
             sig = {"devs": "none", "matches_impl": "no", "what": "catalog shows a directive under another parent"}
             chk.violation(bad + " | document:\n" + text, {"kind": "same_code", "file": text, "signature": sig}, sig)
+    # 5b. a method whose path parameter is the empty quoted string has no path of its own: it stays under its URL
+    for k, text in enumerate(['JSIGHT 0.3\nURL /zq\n  GET ""\n    200 any\n', 'JSIGHT 0.3\nURL /zq\n(\n  GET ""\n    200 any\n)\n',
+                              'JSIGHT 0.3\nMACRO @zg\n(\n  GET ""\n    200 any\n)\nURL /zq\n(\n  PASTE @zg\n)\n']):
+        o = harness("run", [{"id": "eq", "files": {"main.jst": b64(text)}, "root": "main.jst"}])["eq"]
+        c0 = harness("run", [{"id": "eq0", "files": {"main.jst": b64(text.replace(' ""', ""))}, "root": "main.jst"}])["eq0"]
+        chk.evaluations += 1
+        chk.traces += 1
+        chk.nontrivial.add("empty_path:%d" % k)
+        if c0["outcome"] == "ok" and (o["outcome"] != "ok" or json.loads(o["json"]) != json.loads(c0["json"])):
+            sig = {"devs": "none", "matches_impl": "no", "what": "empty path parameter"}
+            chk.violation('a method written GET "" under a URL is not placed like GET without a parameter: %s | document:\n%s' % (
+                o["outcome"] + " " + str((o.get("err") or {}).get("msg", "")), text), {"kind": "empty_path", "file": text, "signature": sig}, sig)
     # 6. a block that ends a context at the scan stage ends it at the expansion stage too: the directive written after a
     #    MACRO block (MACRO stands at top level only) has the same parent in both forests
     for k, (head, follower) in enumerate([("URL /zmb\n  GET\n    200 any\n", "POST\n  200 any\n"), ("URL /zmb\n  GET\n    200 any\n", "Tags @zt\n"),
@@ -269,6 +281,12 @@ def main(tier, only_replay=None):
 def replay(path):
     rp = json.load(open(path))["replay"]
     chk = Check("C06", "quick")
+    if rp.get("kind") == "empty_path":
+        o = harness("run", [{"id": "a", "files": {"main.jst": b64(rp["file"])}, "root": "main.jst"}, {"id": "b", "files": {"main.jst": b64(rp["file"].replace(' ""', ""))}, "root": "main.jst"}])
+        chk.evaluations = 1
+        if o["b"]["outcome"] == "ok" and (o["a"]["outcome"] != "ok" or json.loads(o["a"]["json"]) != json.loads(o["b"]["json"])):
+            chk.violation("reproduced", rp, rp.get("signature"))
+        return chk.finish()
     if rp.get("kind") == "same_code":
         o = harness("run", [{"id": "sc", "files": {"main.jst": b64(rp["file"])}, "root": "main.jst"}])["sc"]
         chk.evaluations = 1
